@@ -8,6 +8,8 @@ TRUST = ("Trusted base: CrossHair 0.0.110's symbolic model of CPython str/int/li
          "per query in the evidence file, nothing is claimed outside them.")
 TECH = "bounded symbolic execution of the real Python functions (CrossHair proxies + z3), path tree exhausted per query; counterexamples replayed natively"
 CLAIMED = {
+    "C05": ("6 C05", "rows(yield)+close with the real IsUnique / DistinctCount checks decided against an oracle that follows the property text (keys remembered only for accepted rows; distinct values counted for rows that reached the check) for all key assignments over a 3-letter alphabet, all validity patterns of the other cell, header and limit within 2-3 rows (thorough: 5 rows with enumerated keys); error row, first-occurrence row and end-of-data verdict compared. One genuine defect is a recorded known finding."),
+    "C08": ("6 C08", "One inductive step: from an ARBITRARY state of the CID's checks (any remembered keys at any rows, any positive counts) each operation (rows in three modes, validate, writer, a reader created before the state was dirtied, an unclosed reader followed by another) has exactly the outcome it has on a fresh CID, for all tables within 2-3 rows. Covers histories of any length if the representation invariant is right; counterexamples are replayed as real histories."),
     "C20": ("6 C20", "The complete call log of harness-defined recording field formats and checks (resolved by class name through the real Cid) equals the log the protocol prescribes, decided for all headers, limits, cell contents, per-row vetoes and end-of-data failures within 1-3 rows x 1-3 fields x 1-2 checks, reader (three modes), writer, fixed and delimited, allowed characters, and two consecutive runs on one CID."),
     "C06": ("6 C06", "The relation between the outcomes of the three error modes (continue = accepted rows of yield; raise = prefix + the same first error; counters add up; a container fault propagates in every mode and nothing is produced after it) decided for all cell contents, header counts and fault positions within 1-3 rows (thorough up to 5) under one shared CID with an IsUnique check, plus the real fixed_rows on every text up to 6 (8) characters."),
     "C04": ("6 C04", "validio.rows(on_error='yield') decided against an independent reference reader for every table shape in the bounds (1-3 fields quick / up to 5 thorough, 0-3 / 0-5 rows, ragged widths) with up to 6 symbolic cells (any Unicode, len<=2) and symbolic header; error line, cell, R<r>C<c> text and field name checked. Container readers are stubbed (S-ROWS)."),
